@@ -402,6 +402,22 @@ func (s *confswarm) honoured4(w *World, dg *DG, r *Reply) {
 	if !ran || !has {
 		return
 	}
+	// repeated addresses may be sent once or as often as configured: both honour the arguments (C17 is the property
+	// that is strict about the exact value)
+	dedup := func(b []byte) string {
+		var out []byte
+		seen := map[string]bool{}
+		for i := 0; i+4 <= len(b); i += 4 {
+			if k := string(b[i : i+4]); !seen[k] {
+				seen[k] = true
+				out = append(out, b[i:i+4]...)
+			}
+		}
+		if len(b)%4 != 0 {
+			out = append(out, b[len(b)-len(b)%4:]...)
+		}
+		return string(out)
+	}
 	var want []byte
 	for _, a := range strings.Fields(strings.Join(s.args, " ")) { // the arguments as the configuration file delivers them
 		ip := net.ParseIP(a).To4()
@@ -411,7 +427,7 @@ func (s *confswarm) honoured4(w *World, dg *DG, r *Reply) {
 		}
 		want = append(want, ip...)
 	}
-	if string(got) != string(want) {
+	if dedup(got) != dedup(want) {
 		w.Violate("C19", "accepted-argument-not-on-the-wire/"+s.plugin, "configuration `%s %s` was accepted at start-up; option %d of the reply to dg%d is % x, the arguments encode to % x", s.plugin, strings.Join(s.args, " "), code, dg.ID, got, want)
 		return
 	}
